@@ -185,7 +185,9 @@ class CanvasCache:
         if not sizes:
             with contextlib.suppress(KeyError):
                 del cls._widgets[widget]
-                del cls._deps[widget]
+            # a dependant need not hold the canvas that just went away (set_depends): do not forget it silently
+            for w in cls._deps.pop(widget, []):
+                cls.invalidate(w)
 
     @classmethod
     def clear(cls) -> None:
